@@ -20,7 +20,7 @@ RULE = ("Hypothesis-generated count-normalised rulesets, with and without --skip
         "draw (either neighbour within 1e-12 of a breakpoint) - the sampler is piecewise constant, so this pins every "
         "derivation's probability; where a draw lies above the (float) total of a list the walk must select the same group after a walk through the last groups as after a walk through the first groups (samples are independent); the in-group choice is scripted over every index. End-to-end: HoneywordSession.run(limit=N) "
         "must print exactly N words (N up to 2500, also on Markov-heavy grammars) of the model's non-Markov language in both modes; random_walk twice (and as CLI "
-        "subprocesses, also with --load after an earlier cracking session of another ruleset / --all_lower left its save file, and for a ruleset that lists one value twice in a group) must be identical. Non-trivial = >=2 base structures and a group of >=2 values; distinct = hash of model.")
+        "subprocesses, also with --load after an earlier cracking session of another ruleset / --all_lower left its save file, and for a ruleset that lists one value twice in a group) must be identical. Non-trivial = >=2 base structures and a group of >=2 values; distinct = hash of model. Scale part many_base_structures: base lists of 3000 / 12 000 structures, the base draw swept over break points deep in the list.")
 ASSUMPTIONS = ["per variable the probabilities times group sizes add up to 1 (trainer output); the base list may add up to less than 1",
                "a separately counted class has one terminal list pruned by hand (sum < 1): there the covered part of the unit interval is pinned to its groups, and for draws above the total the only requirement is that the same draws select the same derivation whatever was walked before on the grammar object",
                "for a sub-normalised base list 'its probability' is read as proportional to the listed value"]
